@@ -33,6 +33,11 @@ DOMAINS = ["example.com", ".example.com", "EXAMPLE.com", ".Example.Com", "sub.ex
 NAMES = ["sid", "a", "ab", "b", "tok", "z"]
 
 
+# cookie values: short alphanumerics, and values as real services issue them (padded base64, paths, colons - all legal in a cookie value)
+VALUES = st.one_of(st.text(alphabet="abc123XYZ", min_size=1, max_size=4), st.text(alphabet="abc123XYZ", min_size=1, max_size=4),
+                   st.sampled_from(["dXNlcjo0Mjr//g==", "a/b:c", "v=1", "x+y", "1.2-3_4~5", "eyJhbGciOiJIUzI1NiJ9.e30.sig"]))
+
+
 def covers(domain, host):
     return host == domain or host.endswith("." + domain)
 
@@ -164,10 +169,10 @@ def run_case(case):
 step = st.fixed_dictionaries(
     {"host": st.sampled_from(HOSTS)},
     optional={
-        "set": st.lists(st.tuples(st.sampled_from(NAMES), st.text(alphabet="abc123XYZ", min_size=1, max_size=4)), min_size=1, max_size=2, unique_by=lambda t: t[0]).map(lambda l: [list(t) for t in l]),
+        "set": st.lists(st.tuples(st.sampled_from(NAMES), VALUES), min_size=1, max_size=2, unique_by=lambda t: t[0]).map(lambda l: [list(t) for t in l]),
         "domain": st.sampled_from(DOMAINS),
         "domain_on": st.sampled_from(["first", "all"]),
-        "cookie": st.sampled_from(["mine=1", "x=y; w=z"]),
+        "cookie": st.sampled_from(["mine=1", "x=y; w=z", "tok=dXNlcjo0Mjr//g==", "p=a/b:c"]),
         "path": st.booleans(),
         "port": st.sampled_from([8080, 443, 8443, 81]),
         "field": st.sampled_from(["Set-Cookie", "set-cookie", "SET-COOKIE", "Set-cookie"]),
